@@ -393,6 +393,10 @@ def run(ctx):
             for t in corpus:
                 t2 = t.replace("{L}", iset_str(("lib", libs[0].name)))
                 cases.append(dict(kind="resolve", text=t2, iset=None))
+            # frame structure of the importing environment (function-level tie of Env.env_import)
+            for c in range(3):
+                isets = [gen_iset(rng, world, rng.choice(libs).name, rng.choice([0, 1, 2, 3]), err=0.03) for _ in range(rng.choice([1, 1, 2, 3]))]
+                cases.append(dict(kind="frames", isets=isets))
             # module-table histories: libraries c0.. with arbitrary (also cyclic / dangling) imports, loaded repeatedly
             nl = rng.randint(2, 5)
             acyclic = rng.random() < 0.4
@@ -427,6 +431,10 @@ def run(ctx):
         for c in gr["cases"]:
             if c["kind"] == "load":
                 continue
+            if c["kind"] == "frames":
+                c["spec_ix"] = len(spec_req)
+                spec_req.append("frames (%s)" % " ".join(iset_str(i) for i in c["isets"]))
+                continue
             if c["kind"] in ("env", "top"):
                 c["spec_ix"] = len(spec_req)
                 spec_req.append("origin (%s) (%s)" % (" ".join(iset_str(i) for i in c["isets"]), " ".join(sym(n) for n in c["names"])))
@@ -446,6 +454,7 @@ def run(ctx):
 
     # ------------------------------------------------------------------ implementation + verdicts
     sampled = 0
+    deaths = 0
     for gr in graphs:
         casefile = os.path.join(moddir, "cases_%s.scm" % gr["gid"])
         with open(casefile, "w") as fh:
@@ -454,13 +463,20 @@ def run(ctx):
                     continue
                 if c["kind"] == "env":
                     fh.write("(env %d (%s) (%s))\n" % (n, " ".join(iset_str(i) for i in c["isets"]), " ".join(sym(x) for x in c["names"])))
+                elif c["kind"] == "frames":
+                    fh.write("(frames %d (%s))\n" % (n, " ".join(iset_str(i) for i in c["isets"])))
                 elif c["kind"] == "load":
                     fh.write("(load %d (v14 %s c%d))\n" % (n, gr["gid"], c["lib"]))
                 elif c["kind"] == "resolve":
                     fh.write("(resolve %d %s)\n" % (n, c["text"]))
                 else:
                     fh.write("(%s %d %s %s)\n" % (c["kind"], n, sym(c["a"]), sym(c["b"])))
-        res, bodies, done, rc, err = run_driver(d, moddir, casefile, timeout=600 if thorough else 120)
+        if deaths >= 3:
+            ctx.note("stopped after 3 graphs on which the chibi process died or hung; remaining graphs not run")
+            break
+        res, bodies, done, rc, err = run_driver(d, moddir, casefile, timeout=300 if thorough else 45)
+        if not done:
+            deaths += 1
         libs = {l.tag: l for l in gr["libs"]}
         ticks = {t: 0 for t in libs}
         needed = set()
@@ -480,6 +496,9 @@ def run(ctx):
                 continue
             if c["kind"] == "load":
                 c["got"] = got
+                continue
+            if c["kind"] == "frames":
+                _judge_frames(ctx, d, moddir, gr, c, got, spec_out[c["spec_ix"]])
                 continue
             if c["kind"] in ("env", "top"):
                 _judge_outer(ctx, d, moddir, gr, c, got, spec_out[c["spec_ix"]].split(" "), libs, ticks, needed)
@@ -737,3 +756,23 @@ def _judge_load(ctx, d, moddir, gr, model, bodies, casefile):
         ctx.violation("load:body-evaluated-twice" if dup else "load:body-evaluation-order", input="world: %s; loads in one process: %s" % (world, hist),
                       expected="bodies evaluated, in order: %s (each at most once, dependencies first, none of a library whose import fails)" % ",".join("c" + x for x in ev),
                       observed=",".join("c" + x for x in got_ev), replay=rep + " | grep BODY")
+
+
+def _judge_frames(ctx, d, moddir, gr, c, got, model):
+    text = " ".join(iset_str(i) for i in c["isets"])
+    ctx.count(1, key=("frames", text.replace(gr["gid"], "G"), tuple(l.graph_sexp().replace(gr["gid"], "G") for l in gr["libs"])), nontrivial=True)
+    ctx.cov["traces_validated_against_impl"] += 1
+    impl_err = isinstance(got, tuple) and got and got[0] == "IMPORT-ERROR"
+    if model.startswith("ERR"):
+        if not impl_err:
+            ctx.violation("import:%s:import-accepted" % (iset_mods(c["isets"][0]) or ["plain"])[0], input=text, expected="import error", observed=repr(got)[:300],
+                          replay=replay_cmd(d, moddir, c["isets"], "a"))
+        return
+    try:
+        exp = norm(parse_datum("(" + model + ")")[0])
+    except Exception:
+        ctx.broken("spec-driver", "frames answered %r" % model)
+        return
+    if got != exp:
+        # frames differ: does any name resolve differently from the SPEC?  (the outer stream decides that); here: structure only
+        ctx.broken("correspondence:env-import-frames", "environment frames after (environment %s): model %r, chibi (env-exports per frame) %r" % (text, exp, got))
